@@ -1,5 +1,6 @@
 import TapkeeVerif.Model.LinearGraph
 import TapkeeVerif.Proofs.LinearGraph
+import TapkeeVerif.Proofs.LinearGraphFixed
 /-!
 C10 property theorems: the feature-space generalised eigenproblem `(lhs, rhs)` built by NPE / LLTSA / LPP
 (`construct_neighborhood_preserving_eigenproblem`, `construct_lltsa_eigenproblem`,
@@ -13,7 +14,7 @@ the proposed patch (`fixes/F-LIN-TRI.diff` + `fixes/F-LLTSA-CENTRE.diff`) makes 
 Helper lemmas: `Proofs/LinearGraph.lean`, `Proofs/LinearGraphFixed.lean`.
 -/
 namespace TapkeeVerif.C10
-open TapkeeVerif TapkeeVerif.LinearGraph
+open TapkeeVerif TapkeeVerif.LinearGraph Matrix
 
 variable {K : Type} [Field K] {N D : Nat}
 
@@ -169,6 +170,112 @@ theorem solver_sees_XMXt_refuted : ¬ SolverSeesFull := by
   have e := congrFun (congrFun h1 0) 1
   rw [solver_sees_diag refuteW_symm, if_neg (by decide), refute_fullForm_01, mul_one] at e
   exact hc e.symm
+
+/-! ## 4. the patched routines (`fixes/F-LIN-TRI.diff` + `fixes/F-LLTSA-CENTRE.diff`): the full statement holds -/
+
+/-- NPE after the patch: the solver sees `2 · Fᵀ W F` and `Fᵀ F`, all entries (`c = 2`, `c' = 1`). -/
+theorem solver_sees_XMXt_fixed {W : Mat N N K} (hW : ∀ r c, W r c = W c r) (F : Mat N D K) :
+    Mat.lowerView (npeProblemFixedD W F).1.get = (fun i j => 2 * fullForm W F i j) ∧
+    Mat.lowerView (npeProblemFixedD W F).2.get = fullDiagForm (fun _ => 1) F := by
+  obtain ⟨h1, h2⟩ := npeFixed_get hW F
+  rw [h1, h2]
+  exact ⟨lowerView_of_symm _ (two_fullForm_symm hW F), lowerView_of_symm _ (fullDiagForm_symm _ F)⟩
+
+/-- NPE after the patch: the returned matrices ARE the full forms (both triangles), whatever triangle is read. -/
+theorem npe_fixed_returns {W : Mat N N K} (hW : ∀ r c, W r c = W c r) (F : Mat N D K) :
+    (npeProblemFixedD W F).1.get = (fun i j => 2 * fullForm W F i j) ∧
+    (npeProblemFixedD W F).2.get = fullDiagForm (fun _ => 1) F :=
+  npeFixed_get hW F
+
+/-- `SolverSeesFull` with the patched routine in place of `npeProblem`. -/
+def SolverSeesFullFixed : Prop :=
+  ∀ (N D : Nat) (W : Mat N N ℚ) (F : Mat N D ℚ), (∀ r c, W r c = W c r) →
+    ∃ c c' : ℚ, c ≠ 0 ∧ c' ≠ 0 ∧
+      (genSolveLower ((npeProblemFixedD W F).1.get, (npeProblemFixedD W F).2.get)).1
+        = (fun i j => c * fullForm W F i j) ∧
+      (genSolveLower ((npeProblemFixedD W F).1.get, (npeProblemFixedD W F).2.get)).2
+        = fun i j => c' * fullDiagForm (fun _ => 1) F i j
+
+/-- the proposed patch makes the needed statement TRUE (`c = 2`, `c' = 1`) -/
+theorem solver_sees_full_fixed : SolverSeesFullFixed := by
+  intro N D W F hW
+  obtain ⟨h1, h2⟩ := solver_sees_XMXt_fixed hW F
+  refine ⟨2, 1, by decide, by decide, h1, ?_⟩
+  show Mat.lowerView (npeProblemFixedD W F).2.get = _
+  rw [h2]
+  funext i j
+  rw [one_mul]
+
+/-- LLTSA after both patches: the solver sees `2 · Fᵀ W F` and the centred `Fᵀ H F`
+    (no hypothesis on `N` is needed: for `N = 0` everything is `0`). -/
+theorem lltsa_solver_sees_fixed {W : Mat N N K} (hW : ∀ r c, W r c = W c r) (F : Mat N D K) :
+    Mat.lowerView (lltsaProblemFixedD W F).1.get = (fun i j => 2 * fullForm W F i j) ∧
+    Mat.lowerView (lltsaProblemFixedD W F).2.get = fullForm centering F := by
+  obtain ⟨h1, h2⟩ := lltsaFixed_get hW F
+  rw [h1, h2]
+  exact ⟨lowerView_of_symm _ (two_fullForm_symm hW F), lowerView_of_symm _ (fullForm_centering_symm F)⟩
+
+theorem lltsa_fixed_returns {W : Mat N N K} (hW : ∀ r c, W r c = W c r) (F : Mat N D K) :
+    (lltsaProblemFixedD W F).1.get = (fun i j => 2 * fullForm W F i j) ∧
+    (lltsaProblemFixedD W F).2.get = fullForm centering F :=
+  lltsaFixed_get hW F
+
+/-- LPP after the patch: the solver sees `2 · Fᵀ L F` and `Fᵀ diag(Dg) F`. -/
+theorem lpp_solver_sees_fixed {L : Mat N N K} (hL : ∀ r c, L r c = L c r) (Dg : Vec N K) (F : Mat N D K) :
+    Mat.lowerView (lppProblemFixedD L Dg F).1.get = (fun i j => 2 * fullForm L F i j) ∧
+    Mat.lowerView (lppProblemFixedD L Dg F).2.get = fullDiagForm Dg F := by
+  obtain ⟨h1, h2⟩ := lppFixed_get hL Dg F
+  rw [h1, h2]
+  exact ⟨lowerView_of_symm _ (two_fullForm_symm hL F), lowerView_of_symm _ (fullDiagForm_symm _ F)⟩
+
+theorem lpp_fixed_returns {L : Mat N N K} (hL : ∀ r c, L r c = L c r) (Dg : Vec N K) (F : Mat N D K) :
+    (lppProblemFixedD L Dg F).1.get = (fun i j => 2 * fullForm L F i j) ∧
+    (lppProblemFixedD L Dg F).2.get = fullDiagForm Dg F :=
+  lppFixed_get hL Dg F
+
+/-! ## 5. rotation algebra.  `rotateRows R F = F Rᵀ` (model-level `Mat.mul F (Mat.transpose R)`) is the sample
+matrix after `x ↦ R x`; `Mat.toM` views a model matrix as a Mathlib `Matrix` (the identity). -/
+
+/-- `rotateRows R F` applies `x ↦ R x` to every sample -/
+theorem rotateRows_row (R : Mat D D K) (F : Mat N D K) (r : Fin N) :
+    rotateRows R F r = Mat.mulVec R (F r) :=
+  rotateRows_apply R F r
+
+/-- `X M Xᵀ ↦ R (X M Xᵀ) Rᵀ` under `x ↦ R x` (any `R`, any `M`) -/
+theorem fullForm_rotate (M : Mat N N K) (F : Mat N D K) (R : Mat D D K) :
+    Mat.toM (fullForm M (rotateRows R F)) = Mat.toM R * Mat.toM (fullForm M F) * (Mat.toM R)ᵀ :=
+  fullForm_rotate_toM M F R
+
+theorem fullDiagForm_rotate (w : Vec N K) (F : Mat N D K) (R : Mat D D K) :
+    Mat.toM (fullDiagForm w (rotateRows R F)) = Mat.toM R * Mat.toM (fullDiagForm w F) * (Mat.toM R)ᵀ :=
+  fullDiagForm_rotate_toM w F R
+
+/-- the linear kernel `F Fᵀ` (hence the neighbour graph and the weight matrix built from it) does not change under an
+    orthogonal `R` -/
+theorem linear_kernel_rotation_invariant (F : Mat N D K) (R : Mat D D K)
+    (hR : (Mat.toM R)ᵀ * Mat.toM R = 1) :
+    Mat.mul (rotateRows R F) (Mat.transpose (rotateRows R F)) = Mat.mul F (Mat.transpose F) :=
+  Matrix.of.injective (gram_rotate_toM F R hR)
+
+example : (Mat.toM rot345)ᵀ * Mat.toM rot345 = 1 := rot345_orth
+
+/-- the mean rotates along -/
+theorem meanVec_rotate (F : Mat N D K) (R : Mat D D K) :
+    meanVec (rotateRows R F) = Mat.mulVec R (meanVec F) :=
+  meanVec_rotate_eq F R
+
+/-- the embedding `Pᵀ (x − mean)` is unchanged when the projection matrix rotates along (`P ↦ R P`) -/
+theorem project_rotate {d : Nat} (P : Mat D d K) (F : Mat N D K) (R : Mat D D K)
+    (hR : (Mat.toM R)ᵀ * Mat.toM R = 1) :
+    project (Mat.mul R P) (rotateRows R F) = project P F :=
+  project_rotate_eq P F R hR
+
+/-- the NEGATIVE fact behind the metamorphic failure on the current tree: taking the diagonal (what the solver sees of
+    `lhs`, `solver_sees_diag`) does not commute with rotation.  Witness: the 3-4-5 rotation and `diag(1, 2)`. -/
+theorem diag_solver_not_rotation_equivariant :
+    ∃ (A R : Matrix (Fin 2) (Fin 2) ℚ), Rᵀ * R = 1 ∧
+      Matrix.diagonal (fun i => (R * A * Rᵀ) i i) ≠ R * Matrix.diagonal (fun i => A i i) * Rᵀ :=
+  ⟨Mat.toM diag12, Mat.toM rot345, rot345_orth, rot345_diag_ne⟩
 
 -- SPECTRAL THEOREMS (appended by the spectral owner)
 
